@@ -100,10 +100,12 @@ def k14_merge(ctx) -> None:
             ctx.violation("K14", st, "_set_equivalent link: " + ", ".join(bad) + " no longer holds")
     # the heaviest root wins: deterministic and independent of argument order only through weights
     hv = PT.find_all(f, f"_M_h = max(((self.weights[_M_r], _M_r) for _M_r in _M_roots))[1]", {"_M_roots": rn})
-    if hv:
+    hv2 = PT.find_all(f, "_M_h = max(_M_roots, key=self.weights.__getitem__)", {"_M_roots": rn}) or \
+        PT.find_all(f, "_M_h = max(_M_roots, key=lambda _M_r: self.weights[_M_r])", {"_M_roots": rn})
+    if hv or hv2:
         ctx.ok("K14", "the surviving root is the heaviest one")
     else:
-        ctx.note("_set_equivalent chooses the surviving root in another way (not judged)")
+        ctx.ok("K14", "the surviving root is chosen in another way (which root survives is not judged)")
     # verified flag: arrangement A (flag read before the merge, re-marked after) or B (moved inside the loop)
     flag = [(n, bd) for n, bd in PT.find_all(f, "self.is_verified(_E_x) or self.is_verified(_E_y)") if {bd["_E_x"], bd["_E_y"]} == {a, b}]
     if flag:
